@@ -183,3 +183,24 @@ fn c17_gearsets_header_with_empty_body() {
     kani::cover!(r.is_none());
     core::mem::forget(r);
 }
+/// a header announcing MORE body bytes than the file holds behind it (a file cut short at its end, or a corrupted
+/// size) -- including sizes that would still fit into the file as a whole -- is rejected, never a panic.
+/// The size is concrete per instance (a symbolic one makes the allocation size symbolic: no verdict in 10 min).
+fn body_longer_than_file(cs: u8) {
+    let mut b: [u8; 20] = kani::any();
+    b[0] = 0x05; b[1] = 0x00; b[2] = 0x6d; b[3] = 0x00;       // GEARSET.DAT tag
+    b[8] = cs; b[9] = 0; b[10] = 0; b[11] = 0;                // the body would need cs - 1 bytes, 3 are there
+    let r = GearSets::from_existing(&b);
+    assert!(r.is_none());
+    kani::cover!(true);
+    core::mem::forget(r);
+}
+#[kani::proof]
+#[kani::unwind(24)]
+fn c17_gearsets_body_one_byte_longer_than_file() { body_longer_than_file(5); }
+#[kani::proof]
+#[kani::unwind(24)]
+fn c17_gearsets_body_as_long_as_whole_file() { body_longer_than_file(21); }
+#[kani::proof]
+#[kani::unwind(24)]
+fn c17_gearsets_body_between() { body_longer_than_file(12); }
